@@ -43,13 +43,7 @@ def split_facts(ctx, d, sep, L):
     ctx.assume(M.F_Join(sep, L) == d)                # B3
     ctx.assume(z3.Implies(z3.Not(z3.Contains(d, sep)),
                           z3.And(n == 1, L_at(L, 0) == d)))
-    ctx.assume(z3.Implies(
-        z3.Contains(d, sep),
-        z3.And(n >= 2,
-               L_at(L, 0) == z3.SubString(d, 0, z3.IndexOf(d, sep, 0)))))
-    ctx.assume(z3.SuffixOf(L_at(L, n - 1), d))
-    ctx.assume(z3.Implies(n >= 2, z3.SuffixOf(
-        z3.Concat(sep, L_at(L, n - 1)), d)))
+    ctx.assume(z3.Implies(z3.Contains(d, sep), n >= 2))
     if is_unbordered_const(sep):                     # B6
         ctx.assume(z3.SuffixOf(sep, d) == z3.And(
             n >= 2, L_at(L, n - 1) == z3.StringVal('')))
